@@ -771,6 +771,67 @@ Section WorldFixed.
     - injection En as <- <-. cbn [dsctx_ok]. exact Hdef.
   Qed.
 
+  (** one identifier, one CURIE *)
+  Lemma compact_shape u st st' c :
+    st_inv st -> compact u st = (st', Some c) ->
+    exists e l p, url_parts u = Some (e, l) /\ c = p ++ c_colon :: l /\ slookup p (p2e (mem st')) = Some e.
+  Proof.
+    intros Hinv. unfold compact. destruct (is_http u); [|discriminate].
+    destruct (url_parts u) as [[e l]|]; [|discriminate].
+    pose proof (assert_prefix_spec e st Hinv) as Ha. destruct (assert_prefix e st) as [s1 p].
+    destruct Ha as (_ & Hpe & _). intros [= <- <-]. exists e, l, p. auto.
+  Qed.
+
+  Definition cinv (w : world) (known : list (str * str)) : Prop :=
+    forall u c, In (u, c) known ->
+    exists e l p, url_parts u = Some (e, l) /\ c = p ++ c_colon :: l /\ slookup p (p2e (mem (nst (wns w)))) = Some e.
+
+  Lemma cinv_mono w w' known : wext w w' -> cinv w known -> cinv w' known.
+  Proof.
+    intros [E _] H u c Hin. destruct (H u c Hin) as (e & l & p & A & B & C). exists e, l, p. auto.
+  Qed.
+
+  Lemma compact_fun_run ops : forall w known,
+    winv w -> cinv w known ->
+    compact_fun_ok known (ns_events (combine ops (snd (wrun v_fixed L ops w)))) = true.
+  Proof.
+    induction ops as [|op ops IH]; intros w known Hinv Hk; cbn [wrun]; [reflexivity|].
+    destruct (wstep_strong op w Hinv) as (H1 & H2 & _ & _).
+    destruct (wstep v_fixed L op w) as [w1 o] eqn:Es. cbn [fst] in *.
+    pose proof (cinv_mono _ _ _ H2 Hk) as Hk1.
+    specialize (IH w1). destruct (wrun v_fixed L ops w1) as [w2 os] eqn:Er. cbn [snd combine] in *.
+    assert (Hdef : compact_fun_ok known (ns_events (combine ops os)) = true) by (apply (IH known H1 Hk1)).
+    unfold ns_events. cbn [flat_map]. fold (ns_events (combine ops os)).
+    destruct op; try (cbn [app]; exact Hdef).
+    cbn [wstep] in Es. change (v_alias v_fixed) with AliasCopy in Es.
+    destruct (ns_step AliasCopy o0 (wns w)) as [n r] eqn:En. injection Es as <- <-. cbn [app].
+    destruct Hinv as (Hn & _ & _ & _).
+    destruct o0; cbn [ns_step] in En.
+    - destruct (assert_prefix e (nst (wns w))). injection En as <- <-. cbn [compact_fun_ok]. exact Hdef.
+    - (* NCompact *)
+      destruct (compact u (nst (wns w))) as [st' rc] eqn:Ec. injection En as <- <-.
+      destruct rc as [c|]; cbn [opt_out compact_fun_ok]; [|exact Hdef].
+      destruct (compact_shape u _ _ _ Hn Ec) as (e & l & p & Hu & Hc & Hp).
+      assert (Hnew : cinv {| wns := with_st (wns w) st'; wid := wid w; wdata := wdata w; wstored := wstored w |} ((u, c) :: known)).
+      { intros u' c' [E|Hin]; [injection E as <- <-; exists e, l, p; auto | apply Hk1, Hin]. }
+      rewrite (IH ((u, c) :: known) H1 Hnew), andb_true_r.
+      destruct (slookup u known) as [c0|] eqn:El; [|reflexivity].
+      apply slookup_In in El. destruct (Hk1 _ _ El) as (e0 & l0 & p0 & Hu0 & Hc0 & Hp0).
+      rewrite Hu in Hu0. injection Hu0 as <- <-. cbn [wns nst with_st] in Hp0.
+      destruct H1 as (Hn1 & _). cbn [wns] in Hn1.
+      assert (p0 = p) by (apply (nsinv_p2e_inj (mem st') p0 p e); [apply Hn1 | exact Hp0 | exact Hp]).
+      subst. apply str_eqb_refl.
+    - destruct (ns_identifier v locals (nst (wns w))). injection En as <- <-. destruct o; cbn [opt_out compact_fun_ok]; exact Hdef.
+    - injection En as <- <-. destruct (expand_curie c (nst (wns w))); cbn [opt_out compact_fun_ok]; exact Hdef.
+    - injection En as <- <-. destruct (get_prefix e (nst (wns w))); cbn [opt_out compact_fun_ok]; exact Hdef.
+    - injection En as <- <-. cbn [compact_fun_ok]. exact Hdef.
+    - injection En as <- <-. destruct (nth_error (handles (wns w)) h); cbn [compact_fun_ok]; exact Hdef.
+    - injection En as <- <-. cbn [compact_fun_ok]. exact Hdef.
+    - injection En as <- <-. cbn [compact_fun_ok]. exact Hdef.
+    - injection En as <- <-. cbn [compact_fun_ok]. exact Hdef.
+    - injection En as <- <-. cbn [compact_fun_ok]. exact Hdef.
+  Qed.
+
   Lemma winv_empty : winv (w_empty L).
   Proof.
     split; [apply nsw_inv_init|]. split; [split; [constructor | reflexivity]|].
@@ -817,7 +878,8 @@ Proof.
     rewrite H3, Nat.eqb_refl, Hd. cbn [andb].
     rewrite (snapshot_wrun L_go (c_ops c) w0 []); [|unfold w0; rewrite setup_handles; reflexivity | constructor].
     rewrite (known_run L_go HL (c_ops c) w0 [] Hw0); [|intros c0 []].
-    rewrite (dsctx_run L_go HL (c_ops c) w0 [] Hw0); [|intros p0 e0 []]. cbn [andb].
+    rewrite (dsctx_run L_go HL (c_ops c) w0 [] Hw0); [|intros p0 e0 []].
+    rewrite (compact_fun_run L_go HL (c_ops c) w0 [] Hw0); [|intros u0 c0 []]. cbn [andb].
     destruct (ends_dump_split _ Hend) as [ops0 E].
     rewrite E in *. rewrite wrun_app in *. cbn [fst snd wrun wstep] in *.
     rewrite last_dump_app. cbn [last_dump].
